@@ -690,6 +690,69 @@ def long_traces(ctx, rep, n_scen, shims=None, only=None, procs=8, corrupt=None, 
     return verdicts
 
 
+def iso_length_agreement(ctx, rep):
+    """ISO data packets whose 16-bit length field has one of its two reserved top bits set.  The Core specification
+    gives Data_Total_Length 14 bits, bumble's packet table reads 16: the property does not say which reading a framer
+    must take, but it does say that all framers find the same boundaries.  Streams are built for either reading (16:
+    the body is as long as the whole field says; 14: as long as the low 14 bits say) and run on every framer; each
+    trace is judged by FramerTrace.tla.  Some reading must make every framer's traces acceptable."""
+    import random
+
+    rng = random.Random(f"C02/rfu/{ctx.seed}")
+    names = list(CORE)
+    scen = []
+    for interp in (16, 14):
+        for body, bits in ((0, 0x4000), (1, 0x8000), (300, 0xC000), (0x3FFF, 0x4000)):
+            if interp == 16:
+                pkts = [("evt", 3), ("iso", body | bits if body | bits <= 0xFFFF else 0xFFFF), ("cmd", 2), ("iso", 0xFFFF if body == 0x3FFF else 7), ("acl", 5)]
+                rfu = None
+            else:
+                pkts = [("evt", 3), ("iso", body), ("cmd", 2), ("iso", 7), ("acl", 5)]
+                rfu = {1: bits, 3: 0x4000}
+            conc = F.Concrete(pkts, "unit", f"rfu/{ctx.seed}/{interp}/{body}", rfu=rfu)
+            sof = [0]
+            for p in conc.packets:
+                sof.append(sof[-1] + len(p))
+            for style in ("small", "large"):
+                plan = _chunk_plan(rng, sof, sof[-1], sof[-1], 0, style)
+                scen.append((interp, {"pkts": pkts, "conc": conc, "sof": sof, "stop": sof[-1], "cut_mid": False, "plan": plan, "disc": True}))
+    env = Env()
+    items = []
+    try:
+        for k, (interp, client) in enumerate(scen):
+            for name in names:
+                items.append((interp, name, k, _trace_of(env, name, [client], 0, None)))
+    finally:
+        env.close()
+    big = consts(ALL_TYPES, 65535, 1000, budget=1000000, clients=1000, bad=100000)
+    cfg = _write(ctx, "framer_trace.cfg", _cfg_text(big, spec="TraceSpec", noearly=False))
+    judged = [x for x in items if not any(e["e"] == "raise" for e in x[3])]
+    res = tlc.trace_batch(ctx.spec("Hci", "FramerTrace.tla"), cfg, [x[3] for x in judged], tag="c02rfu", env={"JAVA_TOOL_OPTIONS": "-Xss512m"}) if judged else {"verdicts": {}, "states": 0}
+    rep.extra["trace_states"] = rep.extra.get("trace_states", 0) + res["states"]
+    ok = {(n, i): True for n in names for i in (16, 14)}
+    for interp, name, k, ev in items:
+        if any(e["e"] == "raise" for e in ev):
+            ok[(name, interp)] = False
+    for tid, v in res["verdicts"].items():
+        interp, name, k, ev = judged[tid - 1]
+        rep.traces += 1
+        rep.case(("rfu", name, interp, k), nontrivial=True)
+        if v[0] == "REJECT":
+            ok[(name, interp)] = False
+    reading = {n: [i for i in (16, 14) if ok[(n, i)]] for n in names}
+    rep.extra["iso_length_reading"] = {n: r for n, r in reading.items()}
+    common = [i for i in (16, 14) if all(ok[(n, i)] for n in names)]
+    if common:
+        return
+    none = [n for n in names if not reading[n]]
+    for n in none:
+        rep.violation(f"{n}:FeedChunk:iso-reserved-length-bits", f"{n} frames ISO data packets whose length field has a reserved top bit set under neither reading "
+                      f"(16-bit length, 14-bit length): packets are merged, lost or split", {"part": "rfu", "framer": n})
+    if not none:
+        rep.violation("framers:iso-length:disagree", f"the framers do not find the same packet boundaries for ISO data packets whose length field has a reserved "
+                      f"top bit set: readings (bits of the length field honoured) per framer = {reading}", {"part": "rfu", "readings": reading})
+
+
 # ----------------------------------------------------------------------------- entry points
 CORE = ["parser", "reader", "async-reader", "tcp-server", "unix-server", "ws-server"]
 SERVERS = ["parser", "tcp-server", "unix-server", "ws-server"]
@@ -763,6 +826,8 @@ def run(ctx, rep):
     t0 = time.time()
     if not only or "long" in only:
         long_traces(ctx, rep, 30 if ctx.quick else 400, only=None if usb_ok else [n for n in CORE])
+    if not only or "rfu" in only:
+        iso_length_agreement(ctx, rep)
     print(f"  [long] {rep.extra.get('long_traces', 0)} traces, {rep.extra.get('trace_states', 0)} states validated by FramerTrace.tla ({time.time() - t0:.1f}s)", flush=True)
     rep.exhaustive = True
     if not ctx.quick:
@@ -811,6 +876,11 @@ def replay(ctx, rep):
         for v in r2.violations:
             print("reproduced:", v.sig, "\n  ", v.summary)
             rep.violation(v.sig, v.summary, r)
+    elif r.get("part") == "rfu":
+        iso_length_agreement(ctx, rep)
+        print("readings per framer:", rep.extra.get("iso_length_reading"))
+        if not rep.violations:
+            print("no violation on this tree")
     else:
         raise ValueError(f"unknown replay part {r.get('part')}")
 
